@@ -386,7 +386,14 @@ class Grammar:
             if len(self.samples) < 2 and kind in ("commit", "tag") and i % 97 == 0:
                 self.samples.append({"kind": kind, "key": key, "tokens": " ".join(self.table[(kind, key)])[:600],
                                      "bytes_sha1_repo": self.expected(kind, key, "sha1").decode("latin-1")[:400]})
-        return {"n": self.n, "fail": self.fail[:2000], "nfail": len(self.fail), "samples": self.samples}
+        # smallest cases first (fewest deviations from a base case / fewest entries), then truncate
+        def size(f):
+            if f["kind"] in ("commit", "tag"):
+                ix = [int(x) for x in f["key"].split(",")]
+                return min(sum(1 for i in ix if i != 1), sum(1 for i, l in zip(ix, self.psize[f["kind"]]) if i != l))
+            return len(f["key"].split(" ")) if f["key"] else 0
+        self.fail.sort(key=size)
+        return {"n": self.n, "fail": self.fail[:3000], "nfail": len(self.fail), "samples": self.samples}
 
 
 def main(argv):
